@@ -200,6 +200,20 @@ class Resolver(object):
                 if pt:
                     for q in pt[0]:
                         out.add(self.p.cls(q))
+                elif f.cls is not None and name != 'self':
+                    # union of the argument classes at the call sites self.<method>(...) inside the class hierarchy
+                    idx = [x.arg for x in f.node.args.args].index(name) - 1 if name in [x.arg for x in f.node.args.args] else -1
+                    if idx >= 0 and depth < 3:
+                        for c in self.p.classes.values():
+                            if f.cls in self.p.mro(c) or c is f.cls:
+                                for m in c.methods.values():
+                                    for call in walk_no_nested(m.node):
+                                        if isinstance(call, ast.Call) and isinstance(call.func, ast.Attribute) and call.func.attr == f.name \
+                                                and isinstance(call.func.value, ast.Name) and call.func.value.id == 'self' and len(call.args) > idx:
+                                            out |= self.types_of(m, call.args[idx], Ctx(c, ctx.owner if ctx else None), depth + 1)
+                if not out and name == 'clf' and f.module.name.startswith('nfc.tag'):
+                    # every `clf` parameter in nfc.tag.* is the ContactlessFrontend handed down from connect()/activate()
+                    out.add(self.p.cls('nfc.clf.ContactlessFrontend'))
                 found = True
             f = f.parent
         self._local_cache[k] = out
@@ -347,6 +361,14 @@ class Resolver(object):
                 else:
                     out.extend(self._from_static(('class', ci), ctx))
             return self._done(func, call, out, record)
+        if isinstance(fn, ast.Subscript) and isinstance(fn.value, ast.Name):
+            ent = func.module.names.get(fn.value.id)
+            if ent and ent[0] == 'expr' and isinstance(ent[1], ast.Dict):
+                for v in ent[1].values:
+                    r = p.resolve_expr(func.module, v, scope=func)
+                    if r and r[0] in ('class', 'func'):
+                        out.extend(self._from_static(r, ctx))
+                return self._done(func, call, out, record)
         if isinstance(fn, ast.Attribute):
             # static chain (module.func, Class.method, nfc.clf.Class)
             r = None
